@@ -662,7 +662,7 @@ _log_filter_store(uint32_t t, enum qb_log_filter_conf c,
 			     strcmp("*", text) == 0)) {
 				qb_list_del(iter);
 				_log_free_filter(flt);
-				return 0;
+				return 1;
 			}
 		}
 
@@ -740,6 +740,42 @@ _log_filter_apply_to_cs(struct qb_log_callsite *cs,
 	}
 }
 
+/*
+ * A target filter or a tag filter has been removed: start over for
+ * that target's bit (or the tags) and apply the filters still stored.
+ */
+static void
+_log_filters_reapply(int32_t t, enum qb_log_filter_conf c)
+{
+	struct callsite_section *sect;
+	struct qb_list_head *list_head;
+	struct qb_log_filter *flt;
+
+	if (c == QB_LOG_FILTER_REMOVE) {
+		list_head = &conf[t].filter_head;
+		qb_list_for_each_entry(sect, &callsite_sections, list) {
+			_log_filter_apply(sect, t, QB_LOG_FILTER_CLEAR_ALL,
+					  QB_LOG_FILTER_FILE, "*", NULL,
+					  0, LOG_TRACE);
+		}
+	} else {
+		list_head = &tags_head;
+		qb_list_for_each_entry(sect, &callsite_sections, list) {
+			_log_filter_apply(sect, t, QB_LOG_TAG_CLEAR_ALL,
+					  QB_LOG_FILTER_FILE, "*", NULL,
+					  0, LOG_TRACE);
+		}
+	}
+	qb_list_for_each_entry(flt, list_head, list) {
+		qb_list_for_each_entry(sect, &callsite_sections, list) {
+			_log_filter_apply(sect, flt->new_value, flt->conf,
+					  flt->type, flt->text, flt->regex,
+					  flt->high_priority,
+					  flt->low_priority);
+		}
+	}
+}
+
 int32_t
 qb_log_filter_ctl2(int32_t t, enum qb_log_filter_conf c,
 		   enum qb_log_filter_type type, const char * text,
@@ -778,6 +814,19 @@ qb_log_filter_ctl2(int32_t t, enum qb_log_filter_conf c,
 
 	if (new_flt && new_flt->regex) {
 		regex = new_flt->regex;
+	}
+	if (c == QB_LOG_FILTER_REMOVE || c == QB_LOG_TAG_CLEAR) {
+		/*
+		 * What a callsite is left with is what the filters that are
+		 * still stored say (another one may select it as well, and
+		 * the regex of the removed one is gone already). Nothing
+		 * removed, nothing changes.
+		 */
+		if (rc > 0) {
+			_log_filters_reapply(t, c);
+		}
+		pthread_rwlock_unlock(&_listlock);
+		return 0;
 	}
 	qb_list_for_each_entry(sect, &callsite_sections, list) {
 		_log_filter_apply(sect, t, c, type, text, regex, high_priority, low_priority);
